@@ -116,9 +116,15 @@ def _nessai():
             return rec.copy()
 
     class Gauss(Model):
+        """deliberately ASYMMETRIC: every parameter has its own, disjoint prior range and its own likelihood width, so that
+        a point whose parameter values end up in the wrong fields (seeded change C01-c: structured arrays are assigned by
+        POSITION, not by name) is out of bounds and has a different likelihood"""
+
         def __init__(self, dims=2, bound=5.0):
             self.names = [f"x{i}" for i in range(dims)]
-            self.bounds = {n: [-bound, bound] for n in self.names}
+            self.centres = {n: 15.0 * i for i, n in enumerate(self.names)}
+            self.widths = {n: 1.0 + 0.5 * i for i, n in enumerate(self.names)}
+            self.bounds = {n: [self.centres[n] - bound, self.centres[n] + bound] for n in self.names}
 
         def log_prior(self, x):
             lp = np.log(self.in_bounds(x).astype(float))
@@ -129,7 +135,7 @@ def _nessai():
         def log_likelihood(self, x):
             ll = np.zeros(x.size) if x.ndim else 0.0
             for n in self.names:
-                ll = ll - 0.5 * x[n] ** 2
+                ll = ll - 0.5 * ((x[n] - self.centres[n]) / self.widths[n]) ** 2
             return ll
 
     _T.update(np=np, torch=torch, empty=empty_structured_array, NestedSampler=NestedSampler, Proposal=Proposal,
@@ -265,6 +271,14 @@ def oracle_step(ctx, np, model, snap, ns, case, prior_ok=True, bounds_ok=True, t
         fail("prior-finite", f"replacement has log-prior {float(new['logP'])}")
     if bounds_ok and not bool(model.in_bounds(new)):
         fail("in-bounds", "replacement lies outside the prior bounds")
+    if tag.endswith("(run)") and bounds_ok and np.isfinite(float(new["logL"])):
+        # "a likelihood strictly greater than the removed one": the likelihood OF THE STORED POINT, not merely the number
+        # stored next to it (the two differ when parameter values land in the wrong fields)
+        with np.errstate(all="ignore"):
+            true_l = float(np.asarray(model.log_likelihood(new)).reshape(-1)[0])
+        if not (abs(true_l - float(new["logL"])) <= 1e-9 * max(1.0, abs(true_l))):
+            fail("likelihood-of-stored-point", f"the stored replacement has logL={float(new['logL'])!r} recorded but the model's "
+                                                f"likelihood at its stored parameters is {true_l!r}")
     if nn0 and ns.nested_samples[-2] is not None and float(ns.nested_samples[-2]["logL"]) > float(worst["logL"]):
         fail("nested-monotone", "discarded likelihoods decreased")
     return idx
@@ -760,7 +774,7 @@ class Recorder:
 
 
 TRACE_KINDS = ["rejection", "analytic", "flow", "flow-resume", "rejection-resume", "flow-nball", "analytic-resume",
-               "flow-memory", "flow-trainckpt-boundary-resume", "flow-trainckpt-mid-resume"]
+               "flow-memory", "flow-trainckpt-boundary-resume", "flow-trainckpt-mid-resume", "flow-reorder"]
 TRACE_KINDS_THOROUGH = TRACE_KINDS + ["flow-truncgauss", "flow-reparam", "flow-novolume", "flow-nball-resume"]
 
 
@@ -781,6 +795,10 @@ def trace_config(kind, seed, nlive):
             kw.update(latent_prior="truncated_gaussian", constant_volume_mode=False, expansion_fraction=1.0)
         if "reparam" in kind:
             kw.update(reparameterisations={"x0": "default"})
+        if "reorder" in kind:
+            # a reparameterisation dictionary that names the LAST parameter only: the proposal's internal parameter order
+            # (named ones first, the rest appended) then differs from model.names
+            kw.update(reparameterisations={"x1": "z-score"})
         if "novolume" in kind:
             kw.update(constant_volume_mode=False)
         if "memory" in kind:
@@ -813,6 +831,7 @@ def run_trace(ctx, kind, seed, nlive, dims=2):
     model = T["Gauss"](dims)
     rec.install()
     segments = []
+    timed_out = None
 
     def on_alarm(signum, frame):
         raise TimeoutError("real run exceeded 180 s")
@@ -849,8 +868,10 @@ def run_trace(ctx, kind, seed, nlive, dims=2):
                 fs.run(plot=False, save=False)
                 segments.append(rec.steps)
     except TimeoutError as e:
-        ctx.broken("trace: " + str(e), repr(case))
-        return
+        # the steps recorded so far are still judged by the oracle (a run that spins usually broke the property earlier)
+        timed_out = str(e)
+        if rec.steps and (not segments or segments[-1] is not rec.steps):
+            segments.append(rec.steps)
     except Exception as e:  # noqa
         ctx.oracle_fail("run:raised", f"real run raised {type(e).__name__}: {e}", case)
         return
@@ -859,6 +880,7 @@ def run_trace(ctx, kind, seed, nlive, dims=2):
         signal.signal(signal.SIGALRM, old_handler)
         rec.remove()
         shutil.rmtree(out, ignore_errors=True)
+    fails_before = len(ctx.fails)
     ns = fs.ns
     # resumed from a checkpoint written INSIDE consume_sample (observed by the dump hook, not inferred from the outcome):
     # the known defect F25 — the failures it causes are reported under its own key
@@ -910,7 +932,10 @@ def run_trace(ctx, kind, seed, nlive, dims=2):
             ctx.case((kind, seed, nlive, si, it0), True, None, kind=f"trace:{st['proposal']}" + (":resumed" if si else ""))
     # the final record of the run
     nested = np.array(ns.nested_samples)
-    if ns.finalised:
+    if timed_out:
+        if len(ctx.fails) == fails_before:
+            ctx.broken("trace: " + timed_out, repr(case))
+    elif ns.finalised:
         ll = nested["logL"]
         if np.any(np.diff(ll) < 0):
             octx.oracle_fail("run:nested-monotone", "nested likelihoods of the finished run decrease somewhere", case)
@@ -1009,7 +1034,7 @@ def step_line(np, model, st, nlive):
 
 
 def traces(ctx):
-    n = ctx.scale(10, 48)
+    n = ctx.scale(11, 48)
     kinds = TRACE_KINDS if ctx.quick else TRACE_KINDS_THOROUGH
     t0 = time.time()
     for t in range(n):
